@@ -96,6 +96,183 @@ class Lin:
         return None
 
 
+class _CRet(Exception):
+    def __init__(self, v):
+        self.v = v
+
+
+class _NotConcrete(Exception):
+    pass
+
+
+def concrete_eval(fx, body, args, depth=0):
+    """Run a small, loop-free function (an opcode constructor, a validation helper of its module) on concrete integers. Values:
+    int / bool / ("ok", v) / ("err",) / ("some", v) / ("none",) / ("struct", {field: value}) / ("range", lo, hi_inclusive) /
+    ("opaque",). Raises _NotConcrete for anything outside that fragment, so callers fail closed."""
+    if depth > 4:
+        raise _NotConcrete("depth")
+    env = {}
+    for p_, v in zip(body["hir"]["params"], args):
+        if p_.get("p") != "Bind":
+            raise _NotConcrete("param pattern")
+        env[p_["local"]] = v
+
+    def ev(e, env):
+        e = F.strip(e)
+        k = e.get("k")
+        if k == "Lit":
+            v = e["value"]
+            if v.get("lit") == "int":
+                return int(v["v"])
+            if v.get("lit") == "bool":
+                return str(v["v"]).lower() == "true"
+            return ("opaque",)
+        if k == "Path":
+            if e.get("res") == "local":
+                if e["local"] in env:
+                    return env[e["local"]]
+                raise _NotConcrete("unbound local")
+            d = F.path_def(e) or e.get("def") or ""
+            if d.split("::")[-1] == "None":
+                return ("none",)
+            cv = fx.const_value(d)
+            if cv is not None:
+                return cv
+            return ("opaque",)
+        if k in ("AddrOf", "Cast", "Use", "DropTemps", "Type"):
+            return ev(e["e"], env)
+        if k == "Unary":
+            v = ev(e["e"], env)
+            if e["op"] == "Deref":
+                return v
+            if e["op"] == "Not" and isinstance(v, bool):
+                return not v
+            raise _NotConcrete("unary")
+        if k == "Binary":
+            op = e["op"]
+            l = ev(e["l"], env)
+            if op == "And":
+                return l and ev(e["r"], env)
+            if op == "Or":
+                return l or ev(e["r"], env)
+            r = ev(e["r"], env)
+            if not (isinstance(l, int) and isinstance(r, int)):
+                raise _NotConcrete("binary on non-integers")
+            return {"Lt": l < r, "Le": l <= r, "Gt": l > r, "Ge": l >= r, "Eq": l == r, "Ne": l != r, "Add": l + r, "Sub": l - r, "Mul": l * r}.get(op, None) if op in ("Lt", "Le", "Gt", "Ge", "Eq", "Ne", "Add", "Sub", "Mul") else (_ for _ in ()).throw(_NotConcrete(op))
+        if k == "Struct":
+            adt = str(e.get("adt") or "")
+            fs = {f["field"]: ev(f["e"], env) for f in e["fields"]}
+            if adt.endswith("ops::RangeInclusive"):
+                return ("range", fs.get("start"), fs.get("end"))
+            if adt.endswith("ops::Range"):
+                return ("range", fs.get("start"), fs.get("end") - 1 if isinstance(fs.get("end"), int) else None)
+            return ("struct", fs)
+        if k == "If":
+            c = ev(e["cond"], env)
+            if not isinstance(c, bool):
+                raise _NotConcrete("condition")
+            if c:
+                return ev(e["then"], env)
+            return ev(e["else"], env) if "else" in e else ("unit",)
+        if k == "Block":
+            env2 = dict(env)
+            for s_ in e["block"]["stmts"]:
+                if s_.get("s") == "Let":
+                    if "init" not in s_ or "els" in s_ or s_["pat"].get("p") != "Bind":
+                        raise _NotConcrete("let form")
+                    env2[s_["pat"]["local"]] = ev(s_["init"], env2)
+                elif s_.get("s") == "Expr":
+                    ev(s_["e"], env2)
+            return ev(e["block"]["expr"], env2) if e["block"].get("expr") is not None else ("unit",)
+        if k == "Ret":
+            raise _CRet(ev(e["e"], env) if "e" in e else ("unit",))
+        if k == "Call":
+            d = F.callee_def(e) or ""
+            last = F.strip_generics(d).split("::")[-1]
+            if last == "Ok" and len(e["args"]) == 1:
+                return ("ok", ev(e["args"][0], env))
+            if last == "Err":
+                return ("err",)
+            if last == "Some" and len(e["args"]) == 1:
+                return ("some", ev(e["args"][0], env))
+            if last in ("from", "into") and len(e["args"]) == 1:
+                return ev(e["args"][0], env)
+            if F.strip_generics(d).endswith("RangeInclusive::new") and len(e["args"]) == 2:
+                return ("range", ev(e["args"][0], env), ev(e["args"][1], env))
+            hb = fx.body(d) or fx.body(F.strip_generics(d))
+            if hb is not None and hb.get("hir"):
+                return concrete_eval(fx, hb, [ev(a, env) for a in e["args"]], depth + 1)
+            return ("opaque",)
+        if k == "MethodCall":
+            m = e["method"]
+            if m == "contains" and len(e["args"]) == 1:
+                r, x = ev(e["recv"], env), ev(e["args"][0], env)
+                if isinstance(r, tuple) and r[0] == "range" and isinstance(x, int) and isinstance(r[1], int) and isinstance(r[2], int):
+                    return r[1] <= x <= r[2]
+                raise _NotConcrete("contains")
+            if m in ("into", "clone", "to_owned", "to_string") and not e["args"]:
+                return ev(e["recv"], env)
+            if m == "map" and len(e["args"]) == 1 and F.strip(e["args"][0]).get("k") == "Closure":
+                r = ev(e["recv"], env)
+                c = F.strip(e["args"][0])
+                if isinstance(r, tuple) and r[0] in ("ok", "some") and len(c["params"]) == 1 and c["params"][0].get("p") == "Bind":
+                    env2 = dict(env)
+                    env2[c["params"][0]["local"]] = r[1]
+                    return (r[0], ev(c["body"], env2))
+                if isinstance(r, tuple) and r[0] in ("err", "none"):
+                    return r
+                raise _NotConcrete("map")
+            if m in ("ok_or", "ok_or_else") and len(e["args"]) == 1:
+                r = ev(e["recv"], env)
+                return ("ok", r[1]) if isinstance(r, tuple) and r[0] == "some" else ("err",)
+            if m in ("then_some",) and len(e["args"]) == 1:
+                r = ev(e["recv"], env)
+                return ("some", ev(e["args"][0], env)) if r is True else ("none",)
+            d = e.get("def") or ""
+            hb = fx.body(d) or fx.body(F.strip_generics(d))
+            if hb is not None and hb.get("hir"):
+                return concrete_eval(fx, hb, [ev(e["recv"], env)] + [ev(a, env) for a in e["args"]], depth + 1)
+            return ("opaque",)
+        if k == "Match" and "TryDesugar" in str(e.get("source", "")):
+            sc = e["scrut"]
+            inner = sc["args"][0] if sc.get("k") == "Call" and sc["args"] else sc
+            r = ev(inner, env)
+            if isinstance(r, tuple) and r[0] in ("ok", "some"):
+                return r[1]
+            if isinstance(r, tuple) and r[0] in ("err", "none"):
+                raise _CRet(r)
+            raise _NotConcrete("?")
+        raise _NotConcrete(str(k))
+
+    try:
+        return ev(body["hir"]["value"], env)
+    except _CRet as r:
+        return r.v
+
+
+def concrete_ctor_table(fx, body):
+    """{n: {field: int}} for every u8 value n the one-parameter constructor accepts (None if it cannot be run concretely)."""
+    sig = fx.fns.get(body["def"], {})
+    ins = sig.get("inputs") or []
+    if len(ins) != 1 or ins[0].strip() != "u8":
+        return None
+    out = {}
+    try:
+        for n in range(256):
+            r = concrete_eval(fx, body, [n])
+            if isinstance(r, tuple) and r[0] == "ok" and isinstance(r[1], tuple) and r[1][0] == "struct":
+                if not all(isinstance(v, int) for v in r[1][1].values()):
+                    return None
+                out[n] = r[1][1]
+            elif isinstance(r, tuple) and r[0] == "err":
+                continue
+            else:
+                return None
+    except (_NotConcrete, KeyError, TypeError):
+        return None
+    return out
+
+
 class DisasmModel:
     def __init__(self, fx):
         self.fx = fx
@@ -228,6 +405,22 @@ class DisasmModel:
                         out[("field", f["field"])] = lin2.ev(T.term(f["e"], env2, inner_mut))
                     results.append(out)
                 first = results[0]
+                if all(r == first for r in results) and all(v is not None for v in first.values()):
+                    return first
+                # the fields are not plain arithmetic over the parameters as written (built inside a closure, behind a helper):
+                # run the constructor on every u8 and fit field = fa * n + fb
+                tab = concrete_ctor_table(fx, body)
+                if tab and len(tab) >= 2 and arg_vals and arg_vals[0] is not None:
+                    ns = sorted(tab)
+                    out = {}
+                    for f in tab[ns[0]]:
+                        fa = (tab[ns[1]][f] - tab[ns[0]][f]) // (ns[1] - ns[0])
+                        fb = tab[ns[0]][f] - fa * ns[0]
+                        if not all(tab[n_][f] == fa * n_ + fb for n_ in ns):
+                            return None
+                        a_, b_ = arg_vals[0]
+                        out[("field", f)] = (fa * a_, fa * b_ + fb)
+                    return out
                 if all(r == first for r in results):
                     return first
                 return None
